@@ -226,7 +226,7 @@ EXTRA = {
            'the box edges are one formula per axis. Per-axis membership tests of the tree (particle inside cell) mention each axis exactly once (R02.10). Arguments handed to helpers have the dimension of the parameter they bind (R02.4 at call sites); the cell-moment update handles the leaf case of the visited cell and guards the division by the cell mass (R02.11). The monopole data of the tree is refreshed for every root cell before every tree force evaluation (R15.12); root-box lookups treat the three axes alike (R15.9, shared).',
     'C03': 'Also: the bisection fallback decides on a finite value (R03.6 - today a known finding: it is NaN-blind); the pair set of the direct and compensated routines leaves out exactly the term solved by the Kepler step for gravity_ignore_terms 1 and 2 (R02.8). The coordinate system whose kick compensates the central attraction names the same mass as its Kepler step (R03.7); the bracket of the bisection fallback is really exchanged for negative steps (R03.8); the cached Jacobi/heliocentric copy advanced by the Kepler step is declared stale for every deferred-mode consumer wherever code outside the integrators changes particles, and on any change of the particle count (R09.10); R09.11 as for C01. The state handed back by a synchronise is the synchronised one (R09.3: conversions to inertial coordinates precede the restore of the cached state).',
     'C04': 'Also: every x/y/z statement triple of every function of every integrator source file is one formula under an axis permutation (R04.6). R03.7: drift and kick of the barycentric splitting add up to the N-body Hamiltonian. A rejected TRACE step restores every member of the integrator struct that the attempt incremented, the centre-of-mass position included (R04.7). Every pair enters the kick once for every ignore-terms setting (R02.8); R09.3 as for C03. Momentum sums of the central body are read only when complete (R01.10, shared).',
-    'C05': 'Also: the byte count of every case of the writer\'s dtype switch equals the size of the members the rows of that dtype designate (R05.8). Integer members classified inert (warning latches) guard nothing but messages, so a restored simulation takes the same path as the running one (R05.9); re-attaching the output leaves the persisted cadence counters alone (R06.5). The classification of unpersisted members is checked against the code: the compensated-summation scratch buffer is reset before it is read (R05.10), conditions on scratch counters guard only re-allocation and scratch state (R05.11); the reader\'s byte accounting follows read helpers and is path-sensitive (R05.5); the element counter of an array field is stored for every field read (R06.9); a picked-up snapshot receives the caller\'s keep_unsynchronized on the integrator in use (R09.7/R09.8/R09.11). Writing a snapshot leaves the simulation unchanged (serialiser effect set, R19.4 shared); a state equal to the first snapshot is still appended (R06.10, shared).',
+    'C05': 'Also: the byte count of every case of the writer\'s dtype switch equals the size of the members the rows of that dtype designate (R05.8). Integer members classified inert (warning latches) guard nothing but messages, so a restored simulation takes the same path as the running one (R05.9); re-attaching the output leaves the persisted cadence counters alone (R06.5). The classification of unpersisted members is checked against the code: the compensated-summation scratch buffer is reset before it is read (R05.10), conditions on scratch counters guard only re-allocation and scratch state (R05.11); the reader\'s byte accounting follows read helpers and is path-sensitive (R05.5); the element counter of an array field is stored for every field read (R06.9); a picked-up snapshot receives the caller\'s keep_unsynchronized on the integrator in use (R09.7/R09.8/R09.11). Persisted arrays of whole particles are zero-initialised where they are (re)allocated (R05.12). Writing a snapshot leaves the simulation unchanged (serialiser effect set, R19.4 shared); a state equal to the first snapshot is still appended (R06.10, shared).',
     'C06': 'Also: descriptor rows designate the member they name (R05.2, shared with C05); every per-snapshot array of the archive index gets a value that does not depend on a field being present in the delta (R06.7). The loop that builds the archive index enlarges its arrays in the last iteration their capacity admits (R06.8); reb_particle_diff compares each member of one particle with the same member of the other (R06.6). The element counter of an array field is stored whatever the field\'s size, so a vanished array is dropped on load (R06.9); an empty delta is appended like any other (R06.10). Snapshot selectors of the Python layer are never tested by truthiness - snapshot 0 is a snapshot (R06.11); ordering comparisons between the interval schedule and the simulation time carry the sign of the timestep on both sides (R06.12).',
     'C07': 'Also: every branch of Simulation.save_to_file that calls a C save function drains the message queue afterwards (R07.9). Position + length is compared with the file size non-strictly, so a snapshot that ends exactly at EOF is kept (R07.11). A byte-wise read of the index scan compares the number of bytes it got with the number it asked for (R07.12). The final snapshot of integrate() is written after the full step size has been put back (R08.10, shared with C08).',
     'C08': 'Also: the escape and close-encounter scans of the heartbeat range over the real particles only, compare in the right direction and set the matching status (R08.7); '
